@@ -239,7 +239,7 @@ func ruleTabExtOid(c *Ctx, r *Rep) {
 		// Oid(): return <lookup>(const k)
 		got := ""
 		for _, ret := range returnsOf(oidFn) {
-			if call, ok := ret.Results[0].(*ssa.Call); ok && len(call.Call.Args) == 1 {
+			if call, ok := retResults(ret)[0].(*ssa.Call); ok && len(call.Call.Args) == 1 {
 				if k, ok := call.Call.Args[0].(*ssa.Const); ok && c.isModNamed("ExtensionOid")(k.Type()) {
 					if i := int(k.Int64()); i >= 0 && i < len(table) {
 						got = table[i]
